@@ -32,6 +32,13 @@ EMBED = [
     ('native', 'SELECT * FROM db ({q})', 'native'),
 ]
 
+# twin lexemes: one name spelt as every token kind that carries a name or value, so that equal spellings / equal decoded
+# values of different kinds meet in one statement (the names are also the model / column names of the templates) or in
+# two statements lexed one after the other in one process
+TWIN_NAMES = ['x', 'm']
+TWIN_FORMS = ['{n}', '@{n}', '@@{n}', "'{n}'", '"{n}"', '`{n}`', '@`{n}`', "@'{n}'", '@"{n}"', '{N}']
+TWINS = [f.format(n=n, N=n.upper()) for n in TWIN_NAMES for f in TWIN_FORMS]
+
 LAYOUTS = ['line', 'own_lines', 'indented', 'tight', 'tight_then_blank']
 
 
@@ -91,6 +98,16 @@ class CHECK(Check):
                     else:
                         if ei in (0, 8, 11, 14):
                             out.append((ei, 'line', seq))
+        # twin family: all sequences of <= 2 twin lexemes (thorough 3 over one name), and every twin lexeme lexed by an earlier
+        # statement of the same process (prelude) before each single twin lexeme is embedded
+        for n in (1, 2) + ((3,) if thorough else ()):
+            for seq in itertools.product(TWINS if n <= 2 else TWINS[:len(TWIN_FORMS)], repeat=n):
+                for ei in range(len(EMBED)):
+                    out.append((ei, 'line', seq))
+        for pre in TWINS:
+            for tw in TWINS:
+                for ei in range(len(EMBED)):
+                    out.append((ei, 'prelude:' + pre, (tw,)))
         # every accepted S0 sentence of the grammar as an inner query (numbered lexemes)
         m = self.m
         sents = set(self.fam.s0_pairs()) | (set(self.fam.s0_edges()) if thorough else set())
@@ -107,6 +124,9 @@ class CHECK(Check):
         ei, layout, payload = case
         name, tpl, attr = EMBED[ei]
         m = self.m
+        if layout.startswith('prelude:'):
+            parsing.outcome('SELECT ' + layout[len('prelude:'):], 'mindsdb')
+            layout = 'line'
         inner = payload if layout == 'text' else lay(payload, layout)
         text = tpl.format(q=inner)
         out = parsing.outcome(text, 'mindsdb')
@@ -158,9 +178,15 @@ class CHECK(Check):
     def coverage(self, agg):
         return {'exhaustive': True, 'lexeme_alphabet': LEX, 'embeddings': [e[0] for e in EMBED], 'layouts': LAYOUTS,
                 'rule': 'all balanced lexeme sequences of length<=3 (thorough 4) x 15 embeddings x layouts (length 3: one layout per embedding in quick) '
-                        '+ accepted grammar sentences as inner queries; distinct_nontrivial = distinct (embedding, stored string)'}
+                        '+ twin lexemes (one name as identifier / @variable / @@variable / each quoted form / upper case): all sequences of <= 2, and each one embedded after each other one was lexed by an earlier statement of the process + accepted grammar sentences as inner queries; distinct_nontrivial = distinct (embedding, stored string)'}
 
     def describe_case(self, case):
         ei, layout, payload = case
+        pre = None
+        if layout.startswith('prelude:'):
+            pre, layout = 'SELECT ' + layout[len('prelude:'):], 'line'
         inner = payload if layout == 'text' else lay(payload, layout)
-        return {'embedding': EMBED[ei][0], 'layout': layout, 'text': EMBED[ei][1].format(q=inner)}
+        d = {'embedding': EMBED[ei][0], 'layout': layout, 'text': EMBED[ei][1].format(q=inner)}
+        if pre:
+            d['statement_parsed_before_in_the_same_process'] = pre
+        return d
